@@ -12,7 +12,8 @@ str(result.path) in both notations.
 import random
 
 import evalcommon as ec
-from evalcommon import init_worker, requests, describe, undescribe, key  # noqa: F401
+from evalcommon import init_worker, describe, undescribe, key  # noqa: F401
+from common import hexs
 
 CONFIG = {
     "id": "C02",
@@ -41,6 +42,65 @@ ESC_DOCS = [
     "{'*': 1, '**': 2, 'a*': 3, '=': 4, '!': 5, '~': 6, '<': 7, '>': 8, ',': 9, ':': 10, '-1': 11, '0': 12}",
     "s: !!set\n  ? a.b\n  ? c/d\n  ? 'e f'\n",
 ]
+KEY_DOCS = [
+    # a back-slash before every kind of character, doubled back-slashes, trailing back-slash
+    r"""{'a\)b': 1, 'c\^d': 2, 'e\$f': 3, 'g\%h': 4, 'i\': 5, 'j\k': 6, 'l\.m': 7, 'n\/o': 8, 'p\(q': 9, 'r\[s': 10, """
+    r"""'t\]u': 11, 'v\ w': 12, "x\\'y": 13, 'z\\z': 14, 'b\\': 15, "q\\\"r": 16}""",
+    """{' ': {' ': 1}, '  lead': 2, 'trail  ': 3, "\\t": {"\\t": 4}, '(p': 5, '[b': 6, ']c': 7, ')d': 8, '+1': 9, '1_0': 10}""",
+    "{5: five, '2': two, 3: three, '3': string-three, -4: minus, true: yes, 1.5: float, null: nothing}",
+    "[{'a.b': [[{'c/d': [1, {'e f': 2}]}]]}, [[3]]]",
+    "s: !!set\n  ? a\n  ? 'b*'\n  ? '&c'\n  ? 'd\\.e'\n  ? 7\n",
+]
+def py_escape(section, sepc):
+    """YAMLPath.escape_path_section re-implemented (so that generating cases needs no repository import)"""
+    escaped = section
+    for symbol in ["\\", sepc, "(", ")", "[", "]", "^", "$", "%", " ", "'", '"']:
+        rt = "\\" + symbol
+        escaped = rt.join(part.replace(symbol, rt) for part in escaped.split(rt))
+    return escaped
+
+
+def straight_text(loc, sepname):
+    """the text of a location given as a list of keys (str, or ('k', int)) and positions (('i', n))"""
+    sepc = "." if sepname == "dot" else "/"
+    out = "/" if sepname == "slash" else ""
+    first = True
+    for r in loc:
+        if isinstance(r, tuple) and r[0] == "i":
+            out += "[%d]" % r[1]
+        else:
+            k = str(r[1]) if isinstance(r, tuple) else r
+            out += ("" if first else sepc) + py_escape(k, sepc)
+        first = False
+    return out
+
+
+# straight key / index paths into the documents above: every handler of a KEY / INDEX segment sees keys with
+# every escapable character (the wildcard paths of ESC_PATHS reach them through other handlers only)
+STRAIGHT = {
+    ("E", 0): [["a.b", "c.d"], ["e/f", "g/h"], ["i j", ("i", 1), "k l"], ["i j", ("i", 0)]],
+    ("E", 1): [["[x]"], ["(y)", "[z]"], ["q'"], ['r"'], ["a^"], ["b$"], ["c%"], ["&d", "&e"]],
+    ("E", 2): [["/lead", "/x"], ["tr/"], [".dot", ".x"], ["back\\slash"], [" sp"], ["sp "]],
+    ("E", 3): [[("i", 0), "a.b"], [("i", 1), "c/d", ("i", 0)]],
+    ("K", 0): [[k] for k in ["a\\)b", "c\\^d", "e\\$f", "g\\%h", "i\\", "j\\k", "l\\.m", "n\\/o", "p\\(q", "r\\[s", "t\\]u",
+                             "v\\ w", "x\\'y", "z\\\\z", "b\\\\", 'q\\"r']],
+    ("K", 1): [[" ", " "], ["  lead"], ["trail  "], ["\t", "\t"], ["(p"], ["[b"], ["]c"], [")d"], ["+1"], ["1_0"]],
+    ("K", 2): [[("k", 5)], ["2"], [("k", 3)], ["3"], [("k", -4)]],
+    ("K", 3): [[("i", 0), "a.b", ("i", 0), ("i", 0), "c/d", ("i", 1), "e f"], [("i", 1), ("i", 0), ("i", 0)]],
+    ("K", 4): [["s", "a"], ["s", "b*"], ["s", "&c"], ["s", "d\\.e"]],
+}
+
+
+def straight_paths(kind, idx):
+    out = []
+    for loc in STRAIGHT.get((kind, idx), []):
+        for sepname in ("dot", "slash"):
+            t = straight_text(loc, sepname)
+            if t not in out:
+                out.append(t)
+    return out
+
+
 ESC_PATHS = ["*", "**", "*.*", "**.*", "/*", "/**", "[.!=zzz]", "*[.!=zzz]", "**[.!=zzz]", "[.=~/./]", "*.*.*",
              "[0]", "[0].*", "*[0]", "[&anc]", "*[&s]", "**[&anc]", "a", "c", "d.*", "s.*", "s[.%/]", "[a:zz]"]
 
@@ -50,6 +110,170 @@ _FAIL = {}
 def node_desc(ld, x):
     k = id(x)
     return "#%d" % ld.enc.oids[k] if k in ld.enc.oids else type(x).__name__
+
+
+# ---- the guard of C02_path_resolves_partial (Model/PathBuild.v), mirrored; tied to the extracted
+# ---- pb_safe / safe_key on every checked result (requests "pb-safe") ----
+HARD = "([] '\""
+
+
+def py_safe_key(k, sepc):
+    """PathBuild.safe_key: non-empty, no '*', no leading '&', no back-slash directly before a back-slash,
+    the separator, ( [ ] blank or a quote"""
+    if k == "" or "*" in k or k[0] == "&":
+        return False
+    bad = "\\" + sepc + HARD
+    return not any(c == "\\" and k[i + 1] in bad for i, c in enumerate(k[:-1]))
+
+
+def py_has_ns(t):
+    return any(not (9 <= ord(c) <= 13 or 28 <= ord(c) <= 32) for c in t)
+
+
+def py_safe(sepname, data, loc):
+    """PathBuild.pb_safe for a location given as [(kind, ref)] with kind K (mapping key) / I (index) / E (member)"""
+    E = ec._ENV
+    sepc = "." if sepname == "dot" else "/"
+    if data is None:
+        return False
+    cur = data
+    for kind, r in loc:
+        if kind == "I":
+            if not isinstance(cur, list) or not (0 <= r < len(cur)):
+                return False
+            cur = cur[r]
+        elif kind == "K":
+            if not isinstance(cur, dict):
+                return False
+            if isinstance(r, str):
+                if not py_safe_key(str.__str__(r), sepc):
+                    return False
+            elif isinstance(r, int) and type(r) is not bool:
+                if any(isinstance(k, str) and str.__str__(k) == str(int(r)) for k in cur):
+                    return False
+            else:
+                return False
+            if r not in cur:
+                return False
+            cur = cur[r]
+        else:
+            if not ec.docenc.is_set(cur) or not isinstance(r, str) or not py_safe_key(str.__str__(r), sepc):
+                return False
+            hit = [m for m in cur if m == r]
+            if not hit:
+                return False
+            cur = hit[0]
+    if sepname == "dot" and loc and loc[0][0] in ("K", "E"):
+        k = str(loc[0][1])
+        if k[:1] == "/":
+            return False
+        from yamlpath.enums import PathSeparators
+        if not py_has_ns(E["YAMLPath"].escape_path_section(k, PathSeparators.DOT)):
+            return False
+    return True
+
+
+def loc_of(nc):
+    """the location of a result, read off its ancestry: [(kind, ref)]"""
+    out = []
+    for (a, r) in nc.ancestry:
+        if isinstance(a, dict):
+            out.append(("K", r))
+        elif ec.docenc.is_set(a):
+            out.append(("E", r))
+        else:
+            # a query by a negative index records the index as written; the location is the normalised position
+            out.append(("I", r + len(a) if isinstance(r, int) and r < 0 else r))
+    return out
+
+
+def straight(nc):
+    """the reported path is the text of the location: KEY / INDEX segments only, no negative index"""
+    return plain_segments(nc.path.original) and \
+        not any(isinstance(a, list) and isinstance(r, int) and r < 0 for (a, r) in nc.ancestry)
+
+
+def loc_sexp(loc):
+    return "(%s)" % " ".join(
+        "(I i%d)" % r if kind == "I" else "(%s %s)" % (kind, ec.docenc.pyval_sexp(r)) for kind, r in loc)
+
+
+def plain_segments(txt):
+    """the path text consists of KEY and INDEX segments only (no [&anchor], slice, search ...)"""
+    from yamlpath.enums import PathSegmentTypes
+    try:
+        return all(t in (PathSegmentTypes.KEY, PathSegmentTypes.INDEX) and (t is PathSegmentTypes.KEY or isinstance(a, int))
+                   for (t, a) in ec._ENV["YAMLPath"](txt).escaped)
+    except Exception:  # noqa
+        return False
+
+
+def located_results(ld, paths, limit):
+    """[(path, nc, loc)] for the results of the required queries that designate a real node reached through real
+    containers (what check_result looks at), at most `limit` per case (None = all)"""
+    E = ec._ENV
+    out = []
+    for p in paths:
+        try:
+            res = list(E["Processor"](E["log"], ld.data).get_nodes(p, mustexist=True))
+        except Exception:  # noqa
+            continue
+        for nc in res:
+            if limit is not None and len(out) >= limit:
+                return out
+            node = nc.node
+            if isinstance(node, E["NodeCoords"]) or id(node) not in ld.enc.oids or nc.parent is None:
+                continue
+            if any(id(a) not in ld.enc.oids for (a, _r) in nc.ancestry) or id(nc.parent) not in ld.enc.oids:
+                continue
+            try:
+                loc = loc_of(nc)
+                loc_sexp(loc)
+            except Exception:  # noqa
+                continue
+            out.append((p, nc, loc))
+    return out
+
+
+def pb_limit(case):
+    return None if case[0] in ESC_DOCS or case[0] in KEY_DOCS else 2
+
+
+def pb_requests(ld, case):
+    """model requests for the located results: the append-form text, the guard in both notations, and - when the
+    guard holds - the text str() shows"""
+    out = []
+    for (_p, nc, loc) in located_results(ld, case[1], pb_limit(case)):
+        ls = loc_sexp(loc)
+        if straight(nc):
+            out.append("(pb-orig %s)" % ls)
+        for sepname in ("dot", "slash"):
+            out.append("(pb-safe %s %s %s)" % (sepname, ld.sexp, ls))
+        if py_safe("dot", ld.data, loc) and straight(nc):
+            out.append("(pb-text dot %s)" % ls)
+    return out
+
+
+def pb_observe(ld, case):
+    from yamlpath.enums import PathSeparators
+    E = ec._ENV
+    out = []
+    for (_p, nc, loc) in located_results(ld, case[1], pb_limit(case)):
+        if straight(nc):
+            out.append("(ok %s)" % hexs(nc.path.original))
+        for sepname in ("dot", "slash"):
+            out.append("(ok %s)" % ("true" if py_safe(sepname, ld.data, loc) else "false"))
+        if py_safe("dot", ld.data, loc) and straight(nc):
+            yp = E["YAMLPath"](nc.path)
+            yp.separator = PathSeparators.DOT
+            out.append("(ok %s)" % hexs(str(yp)))
+    return out
+
+
+def requests(case):
+    out = ec.requests(case)
+    ld = ec.LoadedDoc(case[0])
+    return out + pb_requests(ld, case)
 
 
 def check_result(ld, nc, path):
@@ -70,7 +294,12 @@ def check_result(ld, nc, path):
     if any(id(a) not in ld.enc.oids for (a, _r) in nc.ancestry) or \
             (nc.parent is not None and id(nc.parent) not in ld.enc.oids):
         return None                     # reached through a virtual (slice) result
-    odd = odd_along(nc)
+    try:
+        loc = loc_of(nc)
+        safe_dot = py_safe("dot", ld.data, loc)
+        safe_by = {"DOT": safe_dot, "FSLASH": safe_dot and py_safe("slash", ld.data, loc)}
+    except Exception:  # noqa
+        safe_by = {"DOT": False, "FSLASH": False}
     if nc.parent is None:
         if node is ld.data:
             return None                 # the document root has no parent
@@ -110,6 +339,9 @@ def check_result(ld, nc, path):
     # the reported path resolves to that node and no other, in both notations
     from yamlpath.enums import PathSeparators
     for sepname in ("DOT", "FSLASH"):
+        # C02_reported_path_canonical_partial: under the guard the re-query MUST return exactly the node;
+        # a failure is attributed to the listed finding only when the guard is false
+        odd = not safe_by[sepname]
         try:
             yp = E["YAMLPath"](nc.path)
             yp.separator = PathSeparators[sepname]
@@ -172,7 +404,7 @@ def observe(case):
                 fails.append(r)
                 break
     _FAIL[(doc, tuple(paths))] = (fails, checked)
-    return obs
+    return obs + pb_observe(ec.LoadedDoc(doc), case)
 
 
 def _fails(case, obs):
@@ -227,8 +459,10 @@ def chunks(tier, seed):
     thorough = tier == "thorough"
 
     def gen():
-        for d in ESC_DOCS:
-            yield (d, ESC_PATHS)
+        for i, d in enumerate(ESC_DOCS):
+            yield (d, ESC_PATHS + straight_paths("E", i))
+        for i, d in enumerate(KEY_DOCS):
+            yield (d, ESC_PATHS + straight_paths("K", i))
         for i, (d, paths) in enumerate(ec.gen_cases(tier, seed, with_collectors=False)):
             ps = [p for p in paths if "(" not in p]
             if ps and i % (2 if thorough else 3) == 0:
